@@ -79,6 +79,24 @@ WHAT = {
     'r2-C19-B': 'MATCH parser upper-cases the caller\'s array in place',
     'r2-C20-A': 'two-digit-year pivot / serial arithmetic of DATE changed',
     'r2-C20-B': 'numeric text coerced with float() before the hex/oct/bin parser ("1E5" is 100000)',
+    'r3-C02-A': 'operands that are already float skip float(); `/` relies on ZeroDivisionError, which a numpy zero does not raise',
+    'r3-C02-B': 'operators fill blanks through a view of the operand array (args_parser built by a factory)',
+    'r3-C05-A': 'element evaluations memoised in a dict keyed by the raw value tuple (1 / TRUE share a slot) for comparisons',
+    'r3-C05-B': 'whole-array float fast path for + - * % that skips safe_eval (overflow gives inf, not #NUM!)',
+    'r3-C06-A': 'Ranges.value walks the value blocks once per area: fragments of a partly covered area are not re-matched',
+    'r3-C06-B': '`&` returns its areas as a list; `-` then extends the right operand in place with `+=`',
+    'r3-C08-A': 'inverse_references resets inv-data before the "bypass exists" test: a second pass leaves it empty',
+    'r3-C08-B': 'compile feeds the stored solution of the last calculate into its constant pre-run',
+    'r3-C09-A': 'from_dict reuses the compiled function of the first cell with the same formula text (ROW(), COLUMN())',
+    'r3-C09-B': 'to_dict encoder split into helpers, the scalar one under an untyped lru_cache (TRUE / 1.0)',
+    'r3-C13-A': 'NOW/TODAY read a module-level clock stack that a raising calculate never pops',
+    'r3-C13-B': 'defined names without inputs are evaluated at load (self.func()) and folded into the formulas using them',
+    'r3-C17-A': 'XlError.__init__ added: schedula records the wrong module, ERR_CIRCULAR pickles by value',
+    'r3-C17-B': 'CellWrapper.__deepcopy__ built on copy.copy: the compiled pipe is shared with the copy',
+    'r3-C18-A': 'Parenthesis.n_args only in attr: KeyError for an empty array row (`={1,2;}`)',
+    'r3-C18-B': 'a dangling unary sign after a separator is no longer counted: `=SUM(1,-)` parses as SUM(-1)',
+    'r3-C20-A': 'WEEKDAY return types 11-17 folded like WEEKNUM: type 12 becomes zero-based',
+    'r3-C20-B': 'largest serial replaced by (datetime.max - DATE_ZERO).days, one less than Excel\'s',
 }
 FIRST1 = {
     "C01-A": "exit 2 (unrecognised rewrite)",
@@ -131,6 +149,9 @@ WHY_MISSED = {
     'r2-C13-B': 'value-level arithmetic of the result of RANDBETWEEN',
     'r2-C18-A': 'needs a per-object typestate of Token.attr across the shunting-yard stack (which dynamic get_* reads are preceded by a store)',
     'r2-C20-B': 'value-level: which texts float() accepts',
+    'r3-C08-A': 'idempotence of a graph-building pass (what a second run leaves behind) - a history property of values',
+    'r3-C18-A': 'same as r2-C18-A (found independently): typestate of Token.attr',
+    'r3-C18-B': 'value-level protocol between the argument counter and the shunting-yard stack',
 }
 
 
@@ -139,7 +160,7 @@ def main():
     for p in sorted(glob.glob(os.path.join(HERE, 'seeded', '*', 'meta.json'))):
         m = json.load(open(p))
         metas[m['id']] = m
-    for rnd in (1, 2):
+    for rnd in (1, 2, 3):
         print('\n**Round %d**\n' % rnd)
         print('| seed | what was changed | first run | now: own check (rule) '
               '| now: other checks |')
